@@ -35,7 +35,7 @@ static QtPrivate::QSlotObjectBase *readyReadSlot(XmppSocket *s, QSslSocket *sock
 }
 
 // B = valid UTF-8, cut into three consecutive reads at arbitrary byte positions k1 <= k2
-static void run(bool boundaryOnly)
+static void run(bool boundaryOnly, bool allowFeff = false)
 {
     auto *s = new XmppSocket(nullptr);
     auto *sock = reinterpret_cast<QSslSocket *>(fakeSocket);
@@ -43,7 +43,7 @@ static void run(bool boundaryOnly)
     auto *slot = readyReadSlot(s, sock);
 
     QByteArray B = vpSymBytes(C03_NBYTES);
-    vp_assume(vp_c03_valid_utf8(&B, 1));          // well-formed, no NUL, no U+FEFF (see SPEC outside)
+    vp_assume(vp_c03_valid_utf8(&B, allowFeff ? 0 : 1)); // well-formed, no NUL, no U+FEFF (see SPEC assumptions)
     unsigned k1 = vp_u32(), k2 = vp_u32();
     vp_assume(k1 <= k2 && k2 <= (unsigned)B.size());
     if (boundaryOnly) vp_assume(vp_c03_char_boundary(&B, k1) && vp_c03_char_boundary(&B, k2));
@@ -68,3 +68,5 @@ extern "C" void h_utf8_split() {
 extern "C" void h_utf8_boundary() { run(true); }
 // demonstration of the finding while it is listed as known
 extern "C" void h_utf8_split_in_char() { run(false); }
+// demonstration of the U+FEFF observation (runs only while listed as known finding feff_at_read_start)
+extern "C" void h_utf8_feff() { run(false, true); }
